@@ -32,7 +32,7 @@ Proof.
        (rev (skipn (n - k) out) ++ fst (Div.div_rem_digit_loop w (skipn k (rev a)) rhs rem),
         snd (Div.div_rem_digit_loop w (skipn k (rev a)) rhs rem))).
   - intros k [[out rem] i] (-> & Hk & Hlen & Hrem & Heq) Hc.
-    rewrite ?Z.gtb_ltb, ltb_0_of_nat in Hc. apply Nat.ltb_lt in Hc. split; [lia|].
+    pos_cond_in Hc. apply Nat.ltb_lt in Hc. split; [lia|].
     rewrite (usub_ok (Z.of_nat (n - k)) 1) by lia. cbn [bind].
     replace (Z.of_nat (n - k) - 1) with (Z.of_nat (n - S k)) by lia.
     rewrite arr_get_nat by lia. cbn [bind].
@@ -47,7 +47,7 @@ Proof.
     destruct (Div.div_rem_digit_loop w (skipn (S k) (rev a)) rhs r1) as [qs rf].
     cbn [fst snd rev]. rewrite <- app_assoc. reflexivity.
   - intros k [[out rem] i] (-> & Hk & Hlen & Hrem & Heq) Hc.
-    rewrite ?Z.gtb_ltb, ltb_0_of_nat in Hc. apply Nat.ltb_ge in Hc. assert (k = n) by lia. subst k.
+    pos_cond_in Hc. apply Nat.ltb_ge in Hc. assert (k = n) by lia. subst k.
     rewrite Heq. rewrite (skipn_all2 (rev a)) by (rewrite rev_length; lia). cbn [Div.div_rem_digit_loop fst snd].
     rewrite Nat.sub_diag. cbn [skipn]. rewrite app_nil_r, rev_involutive. reflexivity.
   - split; [f_equal; lia|]. split; [lia|]. split; [apply repeat_length|].
